@@ -512,6 +512,11 @@ class Oracle:
                     k = self.k_of(p)
                     return self._v("18f-iii", "key %s was served but its recency stamp %d is older than the request (%d): "
                                    "a hit does not refresh recency" % (k, stamp(ent), obs.clock_start), obs)
+                if obs.clock_end is not None and fstamp(stamp(ent)) > fstamp(obs.clock_end) + 1e-6:
+                    k = self.k_of(p)
+                    return self._v("18f-iii", "key %s was served but its recency stamp %d still lies in the future (now %d): "
+                                   "use must set recency to the time of use, otherwise the file outlives files used later"
+                                   % (k, stamp(ent), obs.clock_end), obs)
         # --- retry bookkeeping ---------------------------------------------------------
         for i, k in enumerate(req):
             if served[i] is not None:
